@@ -885,6 +885,8 @@ impl PhysicalOperator for HashJoinExec {
                     .map(|p| {
                         let probe = probe.clone();
                         tokio::spawn(async move {
+                            #[cfg(qe_verif)]
+                            crate::verif::sched::sched_point("hash_join.probe_task").await;
                             let stream = probe.execute(p).await?;
                             let batches: Vec<RecordBatch> = stream.try_collect().await?;
                             Ok::<_, crate::error::QueryError>(batches)
@@ -935,6 +937,8 @@ impl PhysicalOperator for HashJoinExec {
                     .map(|p| {
                         let build = build_side.clone();
                         tokio::spawn(async move {
+                            #[cfg(qe_verif)]
+                            crate::verif::sched::sched_point("hash_join.build_task").await;
                             let stream = build.execute(p).await?;
                             let batches: Vec<RecordBatch> = stream.try_collect().await?;
                             Ok::<_, crate::error::QueryError>(batches)
@@ -1284,6 +1288,8 @@ impl PhysicalOperator for HashJoinExec {
                 .map(|p| {
                     let probe = probe_side.clone();
                     tokio::spawn(async move {
+                        #[cfg(qe_verif)]
+                        crate::verif::sched::sched_point("hash_join.probe_task").await;
                         let stream = probe.execute(p).await?;
                         let batches: Vec<RecordBatch> = stream.try_collect().await?;
                         Ok::<_, crate::error::QueryError>(batches)
@@ -1357,6 +1363,8 @@ impl PhysicalOperator for HashJoinExec {
             probe_keep.as_deref(),
         )?;
 
+        #[cfg(qe_verif)]
+        crate::verif::sched::sched_point("hash_join.probe_done").await;
         // Emit unmatched BUILD rows exactly once: the last probe partition to
         // finish scans the shared matched bits.
         if let Some(matched) = &cache.build_matched {
